@@ -19,8 +19,10 @@ RULE = ("trees of depth <= 4 over a small vocabulary (build, src, docs, a.log, a
         "default, configuration default + `no...` override, or absent. Oracle: git's verdict from `git check-ignore "
         "--no-index`; hg and docker from reference matchers written from the tools' documentation; expected rows = "
         "unfiltered listing minus entries that are ignored or lie below an ignored directory; with the switch off the "
-        "listing must be the unfiltered one. Non-trivial = some entry ignored and some not, and (a negation applies, or "
-        "the root is not the repository root, or the root is relative); distinct by canonical JSON of the case.")
+        "listing must be the unfiltered one. A fifth of the cases put two repositories / contexts (own tree, own ignore file) "
+        "side by side and search both in one query (option on both roots, on one only, or by configuration; relative and "
+        "absolute roots; either order): the rows must be those of the two single-root queries together. Non-trivial = some entry ignored and some not, and (a negation applies, or "
+        "the root is not the repository root, or the root is relative; for two roots: both roots filter something); distinct by canonical JSON of the case.")
 ASSUMPTIONS = [
     "patterns outside the generated subset (character classes, escapes, subinclude, rootglob:), global git excludes and nested repositories are not generated",
     "negations only re-include entries that do not lie below an ignored directory (all three tools cannot re-include those)",
@@ -50,7 +52,7 @@ def examples(tier):
 
 
 @st.composite
-def strategy_(draw, tier):
+def strategy_(draw, tier, tool=None):
     leaf = st.just({"t": "f", "c": ""})
     names = st.one_of(st.sampled_from(VOCAB_F), st.sampled_from(VOCAB_F), st.sampled_from(VOCAB_D))
     dnames = st.sampled_from(VOCAB_D)
@@ -64,7 +66,7 @@ def strategy_(draw, tier):
         pool["dir-slash"] = [d + "/" for d in pdirs[:6]] + pool["dir-slash"][:1]
         pool["dir-ext"] = [d + "/*.log" for d in pdirs[:4]] + [d + "/*.*" for d in pdirs[:2]] + pool["dir-ext"][:1]
         pool["starstar"] = ["**/" + d.split("/")[-1] for d in pdirs[:3]] + pool["starstar"]
-    tool = draw(st.sampled_from(["git", "hg", "docker"]))
+    tool = tool or draw(st.sampled_from(["git", "hg", "docker"]))
     single = draw(st.booleans())
     nlines = draw(st.sampled_from([1, 1, 2, 3, 4, 6]))
     lines = []
@@ -110,8 +112,21 @@ def strategy_(draw, tier):
             "mode": draw(st.sampled_from(["", "", "dfs"]))}
 
 
+@st.composite
+def several_roots_(draw, tier):
+    """Two repositories / build contexts side by side, each with its own ignore file, searched in ONE query."""
+    tool = draw(st.sampled_from(["git", "hg", "docker"]))
+    a = draw(strategy_(tier, tool))
+    b = draw(strategy_(tier, tool))
+    shape = draw(st.sampled_from(["two-repos", "two-repos", "two-repos-abs", "same-repo-twice", "repo-and-its-subdir"]))
+    return {"kind": "several-roots", "tool": tool, "shape": shape, "A": {"tree": a["tree"], "lines": a["lines"], "sub": a["sub"]},
+            "B": {"tree": b["tree"], "lines": b["lines"]}, "swap": draw(st.booleans()),
+            "switch": draw(st.sampled_from(["option", "option", "alias", "config", "first-only", "second-only"])),
+            "mode": draw(st.sampled_from(["", "", "dfs"]))}
+
+
 def strategy(tier):
-    return strategy_(tier)
+    return st.sampled_from(range(5)).flatmap(lambda i: several_roots_(tier) if i == 0 else strategy_(tier))
 
 
 # ---------------------------------------------------------------- reference matchers
@@ -220,7 +235,95 @@ def listing(out, cwd, root_text, opts, cfg, tag):
     return [r[0] for r in runner.rows(res.out, 1)], q
 
 
+def _mkrepo(path, tool, tree, lines):
+    os.mkdir(path)
+    trees.materialize(path, tree)
+    with open(os.path.join(path, TOOLS[tool][0]), "w") as f:
+        f.write("\n".join(lines) + "\n")
+    if tool == "git":
+        subprocess.run(["git", "init", "-q", "."], cwd=path, stdout=subprocess.DEVNULL, stderr=subprocess.DEVNULL,
+                       env={"HOME": path, "PATH": "/usr/bin:/bin", "GIT_CONFIG_NOSYSTEM": "1"})
+    elif tool == "hg":
+        os.mkdir(os.path.join(path, ".hg"))
+
+
+def check_several(case):
+    """One query over two roots == the two single-root queries put together (each of which the main oracle judges)."""
+    out = Outcome()
+    cdir = runner.new_case_dir()
+    tool = case["tool"]
+    fname, opt, alias, noopt = TOOLS[tool]
+    try:
+        _mkrepo(os.path.join(cdir, "one"), tool, case["A"]["tree"], case["A"]["lines"])
+        _mkrepo(os.path.join(cdir, "two"), tool, case["B"]["tree"], case["B"]["lines"])
+        shape = case["shape"]
+        if shape == "two-repos":
+            roots = ["one", "two"]
+        elif shape == "two-repos-abs":
+            roots = [cdir + "/one", "two"]
+        elif shape == "same-repo-twice":
+            roots = ["one", "./one"]
+        else:
+            roots = ["one", "one/" + case["A"]["sub"]] if case["A"].get("sub") else ["one", "two"]
+        if case["swap"]:
+            roots.reverse()
+        sw = case["switch"]
+        cfg = "%s = true\n" % opt if sw == "config" else None
+        word = {"option": opt, "alias": alias}.get(sw, opt)
+        o = [" " + word, " " + word]
+        if sw == "config":
+            o = ["", ""]
+        elif sw == "first-only":
+            o = [" " + word, ""]
+        elif sw == "second-only":
+            o = ["", " " + word]
+        mode = (" " + case["mode"]) if case["mode"] else ""
+        singles = []
+        for r, oo in zip(roots, o):
+            rows, q1 = listing(out, cdir, r, oo + mode, cfg, "C20/%s/several-roots" % tool)
+            if rows is None:
+                return out
+            singles.append(rows)
+        both, q = listing(out, cdir, "%s%s%s, %s" % (roots[0], o[0], mode, roots[1]), o[1] + mode, cfg, "C20/%s/several-roots" % tool)
+        if both is None:
+            return out
+        want = collections.Counter(singles[0])
+        if os.path.realpath(os.path.join(cdir, roots[0])) != os.path.realpath(os.path.join(cdir, roots[1])):
+            want += collections.Counter(singles[1])
+        else:
+            want = None   # the same directory twice: whether the second visit lists anything is C18's business
+        if want is not None and shape == "repo-and-its-subdir" and roots[0].startswith(roots[1] + "/") or \
+                want is not None and shape == "repo-and-its-subdir" and roots[1].startswith(roots[0] + "/"):
+            want = None   # nested roots: entries visited once or twice, not asserted here
+        got = collections.Counter(both)
+        if want is not None and got != want:
+            under = sorted((got - want).elements())[:6]
+            over = sorted((want - got).elements())[:6]
+            out.add("C20/%s/several-roots/%s" % (tool, "under-ignore" if under else "over-ignore"), query=q, shape=shape,
+                    lines_one=case["A"]["lines"], lines_two=case["B"]["lines"], wrongly_listed=under, wrongly_missing=over)
+        elif want is None:
+            # weaker claim: nothing is listed that neither single-root query lists
+            allowed = set(singles[0]) | set(singles[1])
+            extra = sorted(set(both) - allowed)[:6]
+            if extra:
+                out.add("C20/%s/several-roots/under-ignore" % tool, query=q, shape=shape, lines_one=case["A"]["lines"], wrongly_listed=extra)
+        U = []
+        for r in roots:
+            rows, _ = listing(out, cdir, r, mode, None, "C20/%s/several-roots" % tool)
+            U.append(rows or [])
+        filtered = [len(a) < len(b) for a, b in zip(singles, U)]
+        out.nontrivial = want is not None and all(filtered) and bool(both)
+        out.classes = sorted({"several-roots", "shape=" + shape, "tool=" + tool, "switch=" + sw} |
+                             ({"both-roots-filter-something"} if all(filtered) else set()))
+        out.sample = {"tool": tool, "query": q, "listed": len(both)}
+    finally:
+        runner.rmtree(cdir)
+    return out
+
+
 def check(case):
+    if case.get("kind") == "several-roots":
+        return check_several(case)
     out = Outcome()
     cdir = runner.new_case_dir()
     repo = os.path.join(cdir, "repo")
